@@ -4,6 +4,7 @@ import json
 import random
 
 from .. import common as C
+from .. import memmodel as M
 from .. import codec as K
 
 PROP = "C01"
@@ -158,6 +159,8 @@ def run(tier, seed):
     chk = C.Check(PROP, tier, seed, "model_checking")
     rnd = random.Random(seed)
     vdir = C.ensure_build("rel")
+    # the image itself (core/Memory.cpp) against Image.tla: every property that reads the image rests on it
+    M.run_image(chk, tier, seed, random.Random(seed + 17), PROP)
     cpus = K.cpu_list(vdir)
     by_name = {c["name"]: c for c in cpus}
 
